@@ -131,7 +131,7 @@ static void do_critic(FuzzedDataProvider & fdp) {
 }
 
 static void do_opml(FuzzedDataProvider & fdp) {
-	int api = fdp.ConsumeIntegralInRange<int>(0, 3);
+	int api = fdp.ConsumeIntegralInRange<int>(0, 4);
 	int fmt = fdp.ConsumeIntegralInRange<int>(0, 12);
 	unsigned long ext = (fdp.ConsumeIntegral<uint32_t>() & 0x1FFFF & ~(unsigned long)EXT_PARSE_ITMZ) | EXT_PARSE_OPML;
 	std::string doc = fz_cstr(fdp.ConsumeRemainingBytesAsString());
@@ -140,6 +140,13 @@ static void do_opml(FuzzedDataProvider & fdp) {
 		case 0: { DString * r = mmd_string_convert_opml_to_text(doc.c_str()); if (r) d_string_free(r, true); } break;
 		case 1: { DString * d = d_string_new(doc.c_str()); DString * r = mmd_d_string_convert_opml_to_text(d); if (r) d_string_free(r, true); d_string_free(d, true); } break;
 		case 2: { char * r = mmd_string_convert(doc.c_str(), ext, fmt, 0); free(r); } break;
+		case 4: { // one engine: import + convert, then edit the imported text through the engine, convert again (other format), release
+			mmd_engine * e = mmd_engine_create_with_string(doc.c_str(), ext);
+			DString * r = mmd_engine_convert_to_data(e, fmt, NULL); if (r) d_string_free(r, true);
+			std::string val(1500, 'v'); mmd_engine_update_metavalue_for_key(e, "imported key", val.c_str());
+			char * k = mmd_engine_metadata_keys(e); free(k);
+			r = mmd_engine_convert_to_data(e, (fmt + 11) % 13, NULL); if (r) d_string_free(r, true);
+			mmd_engine_free(e, true); } break;
 		default: { DString * d = d_string_new(doc.c_str()); DString * r = mmd_d_string_convert_to_data(d, ext, fmt, 0, NULL); if (r) d_string_free(r, true);
 		           // the documented in-place replacement leaves a usable DString behind
 		           d_string_append(d, "x"); if (strlen(d->str) != d->currentStringLength) fz_oracle_fail("C01", "opml:source-dstring-inconsistent", doc);
@@ -160,15 +167,20 @@ static std::string zip_wrap(const std::string & xml, const char * name) {
 }
 
 static void do_itmz(FuzzedDataProvider & fdp) {
-	int api = fdp.ConsumeIntegralInRange<int>(0, 3);
+	int api = fdp.ConsumeIntegralInRange<int>(0, 5);
 	int fmt = fdp.ConsumeIntegralInRange<int>(0, 12);
 	std::string raw = fdp.ConsumeRemainingBytesAsString();
 	std::string arc = (api & 1) ? zip_wrap(raw, "mapdata.xml") : raw;
 	if (FZ_GUARDED()) {
 		DString * d = d_string_new(""); d_string_append_c_array(d, arc.data(), arc.size());
-		if (api < 2) { DString * r = mmd_d_string_convert_itmz_to_text(d); if (r) d_string_free(r, true); }
-		else { DString * r = mmd_d_string_convert_to_data(d, EXT_PARSE_ITMZ | EXT_SMART | EXT_NOTES | EXT_CRITIC, fmt, 0, NULL); if (r) d_string_free(r, true); }
-		d_string_free(d, true);
+		if (api < 2) { DString * r = mmd_d_string_convert_itmz_to_text(d); if (r) d_string_free(r, true); d_string_free(d, true); }
+		else if (api < 4) { DString * r = mmd_d_string_convert_to_data(d, EXT_PARSE_ITMZ | EXT_SMART | EXT_NOTES | EXT_CRITIC, fmt, 0, NULL); if (r) d_string_free(r, true); d_string_free(d, true); }
+		else { // one engine: import + convert, edit the imported text, convert again, release
+			mmd_engine * e = mmd_engine_create_with_dstring(d, EXT_PARSE_ITMZ | EXT_SMART | EXT_NOTES | EXT_CRITIC);
+			DString * r = mmd_engine_convert_to_data(e, fmt, NULL); if (r) d_string_free(r, true);
+			std::string val(1500, 'v'); mmd_engine_update_metavalue_for_key(e, "imported key", val.c_str());
+			r = mmd_engine_convert_to_data(e, (fmt + 11) % 13, NULL); if (r) d_string_free(r, true);
+			mmd_engine_free(e, true); }
 	}
 	FZ_END();
 }
